@@ -4,6 +4,7 @@ import (
 	"fmt"
 	"iter"
 	"math"
+	"path"
 	"slices"
 	"sync/atomic"
 
@@ -27,6 +28,21 @@ func NewTableWriter(fs storage.FileSystem, id int64) *TableWriter {
 	atomicNum := &atomic.Int64{}
 	atomicNum.Store(id)
 	return &TableWriter{fs: fs, id: atomicNum}
+}
+
+// SkipPast makes sure that tables written from now on get file numbers greater
+// than the given existing table's, so that its file is never overwritten.
+func (c *TableWriter) SkipPast(t *Table) {
+	var n int64
+	if _, err := fmt.Sscanf(path.Base(t.file.Name()), "%d.sst", &n); err != nil {
+		return
+	}
+	for {
+		cur := c.id.Load()
+		if cur > n || c.id.CompareAndSwap(cur, n+1) {
+			return
+		}
+	}
 }
 
 func (c *TableWriter) Write(entries iter.Seq[kv.Entry]) (*Table, error) {
